@@ -13,7 +13,7 @@ COQ_PROP_OK = "prop_ok"
 RULE = ("seeded configurations: time scale in {1/4,1/2,1,2,4}, interval and offset dyadic (offset sometimes >= interval), up to 25 ticks each with a loop overhead, a step "
         "duration chosen below / exactly at / above the interval (in system time), and a pause of random real length at the loop guard before some ticks (half of them the pause of a state save: the clock's state is exported in the middle). "
         "Step starts are taken from the library's clock and from the reference system time kept by the harness. "
-        "Plus whole-system runs: launch() with a fixed-interval interaction under the deterministic scheduler, time scale 1/2, 1, 2 or 4 and dyadic durations; the step starts, step durations and loop overheads of the inference thread are read off the run and go through the same model and oracle. "
+        "Every adjustor-level case ends with twelve steps on a raw clock that moves on every single read, each ending within a few such ticks of its deadline: pacing them must not raise (harness-side clause). Plus whole-system runs: launch() with a fixed-interval interaction under the deterministic scheduler, time scale 1/2, 1, 2 or 4 and dyadic durations; the step starts, step durations and loop overheads of the inference thread are read off the run and go through the same model and oracle. "
         "Non-trivial = contains a step shorter than, one longer than the interval, and a pause; distinct = canonical JSON.")
 TRUSTED = [
     "Coq 8.16.1 kernel incl. vm_compute",
@@ -82,6 +82,9 @@ def gen(rng, tier):
 def precheck(case, obs):
     if "crash" in obs or "error" in obs:
         return {"agree": False, "prop_ok": False, "hard": True}
+    if obs.get("edge_error"):
+        # on a raw clock that moves on every read, pacing a step that ends next to its deadline raised (harness-side clause)
+        return {"agree": False, "prop_ok": False}
     return None
 
 
@@ -121,6 +124,8 @@ def nontrivial(case, obs):
 def signature(case, obs):
     if "error" in obs or "crash" in obs:
         return "raises"
+    if obs.get("edge_error"):
+        return "pacing-raises-next-to-the-deadline:" + obs["edge_error"].split(":")[0]
     return "pacing"
 
 
